@@ -1,6 +1,7 @@
 import BiotiteModel.Proofs.C03Kmer
 import BiotiteModel.Proofs.C03Codon
 import BiotiteModel.Proofs.C03Seq
+import BiotiteModel.Proofs.C03Expected
 import BiotiteModel.Gen.C03
 /-!
 # C03 — property theorems (symbol encoding is a bijection; sequences behave like their strings)
@@ -623,6 +624,41 @@ theorem C03_gen_codon_tables :
     (Gen.C03.defaultStarts.all fun s => s.length == 3 && s.all (Gen.C03.nucUnamb.contains ·)) = true ∧
     Gen.C03.codonTables.length ≥ 1 := by
   decide +kernel
+
+/-! ## The anchored source still is the source the model was written against (tie pass 7 / 8)
+
+Alpha-normalised facts (comparison operators, constants, order of tests, exception classes, defaults) of every
+modelled function, regenerated on each run, equal the snapshot in `Proofs/C03Expected.lean`. -/
+
+theorem C03_gen_facts_alphabet : Gen.C03.factsAlphabet = Expected.factsAlphabet := by decide +kernel
+theorem C03_gen_facts_sequence : Gen.C03.factsSequence = Expected.factsSequence := by decide +kernel
+theorem C03_gen_facts_translate : Gen.C03.factsTranslate = Expected.factsTranslate := by decide +kernel
+theorem C03_gen_facts_codon : Gen.C03.factsCodon = Expected.factsCodon := by decide +kernel
+theorem C03_gen_facts_kmer : Gen.C03.factsKmer = Expected.factsKmer := by decide +kernel
+theorem C03_gen_defaults : Gen.C03.factsDefaults = Expected.factsDefaults := by decide +kernel
+
+/-- The dtype ladder read from the source, evaluated as the code evaluates it. -/
+def ladderBits : List (String × Nat × Nat) → Nat → Nat
+  | [], _ => 64
+  | (_, bound, bits) :: rest, n => if n ≤ bound then bits else ladderBits rest n
+
+/-- `Sequence.dtype` and `AlphabetMapper._dtype` of the current source are the ladder the model's
+`dtypeBits` implements — for every alphabet size. -/
+theorem C03_gen_dtype_ladder :
+    Gen.C03.seqDtypeLadder = Gen.C03.mapperDtypeLadder ∧ (Gen.C03.seqDtypeLadder.all fun e => e.1 == "LtE") = true ∧
+    ∀ n, dtypeBits n = ladderBits Gen.C03.seqDtypeLadder n := by
+  refine ⟨by decide, by decide, fun n => ?_⟩
+  simp only [dtypeBits, Gen.C03.seqDtypeLadder, ladderBits]
+
+/-- Constants of `translate` / `_to_number` the model hard-codes: stop symbol `*`, start replacement `M`,
+three frames, radix exponents 2,1,0 (so the codon number is `16a + 4b + c`). -/
+theorem C03_gen_translate_constants :
+    Gen.C03.stopSymbol = 42 ∧ Gen.C03.metSymbol = 77 ∧ Gen.C03.frameCount = 3 ∧ Gen.C03.radixExponents = [2, 1, 0] ∧
+    Gen.C03.protAlph.contains Gen.C03.stopSymbol = true ∧ Gen.C03.protAlph.contains Gen.C03.metSymbol = true ∧
+    ∀ a b c, codonNumber [a, b, c] =
+      some (Gen.C03.nucUnamb.length ^ 2 * a + Gen.C03.nucUnamb.length ^ 1 * b + Gen.C03.nucUnamb.length ^ 0 * c) := by
+  refine ⟨rfl, rfl, rfl, rfl, by decide, by decide, fun a b c => ?_⟩
+  simp [codonNumber, Gen.C03.nucUnamb]
 
 /-! ## Non-vacuity: the hypotheses are met by concrete, non-trivial inputs -/
 
